@@ -159,8 +159,13 @@ def run_models(ctx):
             well_conditioned = bool(np.all(nv > 1e-6 * nv.max()))
             for normalized in ((False, True) if well_conditioned else (False,)):
                 try:
-                    back = m2.transform(m2.inverse_transform(Sd, normalized=normalized), normalized=normalized)
-                    ok = valid_eq(back.transpose("time", "mode").values, S, float(np.abs(S).max()), 1e-7) and \
+                    Xb = m2.inverse_transform(Sd, normalized=normalized)
+                    back = m2.transform(Xb, normalized=normalized)
+                    # the reconstruction carries the feature means (and units): subtracting them again costs
+                    # eps * |reconstruction| in data units, i.e. that much divided by the norm in normalized units
+                    floor = 1e3 * np.finfo(float).eps * float(np.nanmax(np.abs(Xb.values))) / (float(nv.min()) if normalized else 1.0)
+                    bv = back.transpose("time", "mode").values
+                    ok = bv.shape == S.shape and bool(np.all(np.abs(bv - S) <= 1e-7 * np.abs(S).max() + floor)) and \
                         list(back.time.values) == list(tcoord)
                 except Exception as e:
                     ok = False
